@@ -234,7 +234,7 @@ def add_obligations(pack, ss, tier, pid='C02'):
                'md5 separates different feeds (collisions and concatenation ambiguity are not modelled); the generator reads no declared '
                'field besides those named in the contract of Model.get_md5 (v_str, v_iter, e_str, diag_eps, service v_str / sequential, '
                'exported flags, names)')
-    run_contracts(pack, [(fg_update(pid, 'f'), None, replay_fg_update('f')), (fg_update(pid, 'g'), None, replay_fg_update('g')), (refresh_inputs_arg(pid),), (find_stale(pid),), (undill(pid),), (generate_pycode_tail(pid),), (get_md5(pid), None, replay_get_md5), (refresh_inputs(pid), None, replay_refresh_inputs)])
+    run_contracts(pack, [(fg_update(pid, 'f'), None, replay_fg_update('f')), (fg_update(pid, 'g'), None, replay_fg_update('g')), (refresh_inputs_arg(pid),), (find_stale(pid), None, replay_find_stale), (undill(pid), None, replay_find_stale), (generate_pycode_tail(pid),), (get_md5(pid), None, replay_get_md5), (refresh_inputs(pid), None, replay_refresh_inputs)])
 
 
 FSP = 'andes/core/symprocessor.py'
@@ -593,3 +593,73 @@ def replay_refresh_inputs(obligation=None, model=None, meta=None):
 
 
 replay_refresh_inputs.real_system = True
+
+
+def replay_inputs_arg(obligation=None, model=None, meta=None):
+    """native: after TDS.init every entry of every per-function argument list (f, g, sns, j, s, ia, ii, ij) of every model with devices IS
+    the object the name table holds for that argument name -- in particular the live time array for 'dae_t' -- so that values which
+    change in place (time, variables, flags) are seen by every generated function"""
+    import contextlib
+    import io
+    import logging
+    import andes
+    logging.getLogger('andes').setLevel(logging.CRITICAL)
+    n = 0
+    for case in ('kundur/kundur_full.xlsx', 'ieee14/ieee14_full.xlsx'):
+        with contextlib.redirect_stdout(io.StringIO()), contextlib.redirect_stderr(io.StringIO()):
+            ss = andes.load(andes.get_case(case), default_config=True, no_output=True)
+            ss.PFlow.run()
+            ss.TDS.init()
+        for mname, m in ss.models.items():
+            if m.n == 0:
+                continue
+            lists = [('f_args', m.calls.f_args, m.f_args), ('g_args', m.calls.g_args, m.g_args), ('sns_args', m.calls.sns_args, m.sns_args)]
+            for key in ('j_args', 's_args', 'ia_args', 'ii_args', 'ij_args'):
+                src = m.calls.__dict__[key]
+                for name in src:
+                    lists.append(('%s[%s]' % (key, name), src[name], getattr(m, key)[name]))
+            for label, names, values in lists:
+                if len(names) != len(values):
+                    return {'confirmed': True, 'inputs': {'case': case, 'model': mname, 'list': label}, 'observed': '%d argument names, %d values' % (len(names), len(values)),
+                            'native_cmd': 'contracts/C02_binding.py replay_inputs_arg'}
+                for arg, val in zip(names, values):
+                    n += 1
+                    if val is not m._input[arg]:
+                        live = arg == 'dae_t'
+                        return {'confirmed': True, 'inputs': {'case': case, 'model': mname, 'list': label, 'argument': arg},
+                                'observed': 'the entry is not the object filed under this name in the argument table (%s)' % (
+                                    'the simulation time would stay frozen for this function' if live else 'a copy or another value'),
+                                'native_cmd': 'contracts/C02_binding.py replay_inputs_arg'}
+    return {'confirmed': False, 'tried': n}
+
+
+replay_inputs_arg.real_system = True
+
+
+def replay_find_stale(obligation=None, model=None, meta=None):
+    """native: after a System has been constructed (code loaded, staleness checked once), an equation string of one model is edited on the
+    live object: the next staleness query must report that model, and no other"""
+    import logging
+    import andes
+    logging.getLogger('andes').setLevel(logging.CRITICAL)
+    ss = andes.System(default_config=True)
+    first = list(ss._find_stale_models().keys())
+    if first:
+        return {'confirmed': False, 'note': 'models stale before any edit: %r' % first[:5]}
+    n = 0
+    for mname, vname in (('GENCLS', 'delta'), ('PQ', 'a'), ('TGOV1', 'pout')):
+        n += 1
+        var = ss.__dict__[mname].__dict__[vname]
+        old = var.e_str
+        var.e_str = '(%s) + 0.125' % old
+        try:
+            stale = list(ss._find_stale_models().keys())
+        finally:
+            var.e_str = old
+        if stale != [mname]:
+            return {'confirmed': True, 'inputs': {'edit': '%s.%s.e_str gets "+ 0.125" on the live object of a System constructed before' % (mname, vname)},
+                    'observed': '_find_stale_models() reports %r, expected [%r]' % (stale, mname), 'native_cmd': 'contracts/C02_binding.py replay_find_stale'}
+    return {'confirmed': False, 'tried': n}
+
+
+replay_find_stale.real_system = True
